@@ -1492,8 +1492,11 @@ class Repository:
                 with glock:
                     digests = files_digests[file_path]
                     digests.remove(digest)
+                    # Decide while holding the lock: a concurrent loader removing
+                    # the last digest must not make both threads finish the file
+                    finished = not digests
 
-                if not digests:
+                if finished:
                     logger.info('Finished writing file %s', file_path)
                     with glock:
                         restore_path, metadata = files_metadata.pop(file_path)
